@@ -546,6 +546,21 @@ func c18Run(c *mon.Ctx) {
 			cl.Close()
 		}
 	}
+	// an empty read buffer - nil or not - means "use the default": the kernel's reply must arrive all the same
+	for name, rb := range map[string][]byte{"nil": nil, "empty": {}, "zero-length-with-capacity": make([]byte, 0, 256), "reset-pooled": make([]byte, 512)[:0]} {
+		cl, err := libaudit.NewNetlinkClient(syscall.NETLINK_ROUTE, 0, rb, nil)
+		if err != nil {
+			c.Inconclusive("cannot open NETLINK_ROUTE socket: " + err.Error())
+			return
+		}
+		var last uint32
+		k := &c18Case{Kind: "frame", Type: uint16(300 + r.Intn(1000)), Flags: uapi.NlmFRequest, Payload: r.Bytes(24)}
+		if c18Frame(c, cl, k, &last) {
+			c.Add("frames_through_default_read_buffer_"+name, 1)
+		}
+		c.Add("evaluations", 1)
+		cl.Close()
+	}
 	// the client the library builds for the audit subsystem must be able to take the largest kernel datagram
 	// (16-byte header + 8970 bytes of payload) in one receive: its read buffer is inspected (the socket is only
 	// opened and closed, nothing is sent to the audit subsystem)
